@@ -123,8 +123,8 @@ ISR_CODE = bytes((0xF5, 0x3A, COUNTER & 0xFF, COUNTER >> 8, 0x3C, 0x32, COUNTER 
 # (first 32/36 T-states of the frame), so it is accepted a second time; save points then fall *inside* the active window
 ISR_SHORT = bytes((0xFB, 0x00, 0xED, 0x4D))
 
-DEFAULT = dict(fmt='szx', machine='48K', cmio=0, python=0, t0='near', isr='long', verbose=0, prog='std')
-ALTS = dict(fmt=['z80'], machine=['128K'], cmio=[1], python=[1], t0=['zero', 'late', 'big', 'display', 'huge'], isr=['short'], verbose=[1])
+DEFAULT = dict(fmt='szx', machine='48K', cmio=0, python=0, t0='near', isr='long', verbose=0, prog='std', audio=0)
+ALTS = dict(fmt=['z80'], machine=['128K'], cmio=[1], python=[1], t0=['zero', 'late', 'big', 'display', 'huge'], isr=['short'], verbose=[1], audio=[1])
 
 
 def t0_value(name, machine, seq_len):
@@ -205,6 +205,10 @@ def trace_args(cfg, src, n, dst):
         a.insert(0, '--cmio')
     if cfg['python']:
         a.insert(0, '--python')
+    if cfg.get('audio'):
+        # --audio installs the port-logging tracer (border changes and speaker moves are kept as time-stamped lists, and the
+        # border colour written to the snapshot is taken from that list); on all three runs
+        a.insert(0, '--audio')
     if cfg.get('verbose') and dst.endswith(('mid.szx', 'mid.z80', 'split.szx')):
         # both legs of the split run log every instruction (-v: the simulators call back into Python for the disassembly
         # and the trace line after each instruction); the uninterrupted reference run stays silent
@@ -306,6 +310,12 @@ def configs(d):
         for py in (0, 1):
             for fmt in ('szx', 'z80'):
                 seen.append(dict(DEFAULT, machine=machine, cmio=1, python=py, fmt=fmt, t0='display', prog='halt7fff'))
+    # the port-logging tracer (--audio) on each simulator, on 128K and late in the frame (border writes either side of the
+    # frame boundary)
+    for kw in (dict(python=1), dict(cmio=1), dict(machine='128K'), dict(fmt='z80'), dict(t0='late'), dict(t0='late', python=1)):
+        cfg = dict(DEFAULT, audio=1, **kw)
+        if cfg not in seen:
+            seen.append(cfg)
     # instruction logging on the split legs, on each simulator and machine
     for kw in (dict(python=1), dict(cmio=1), dict(machine='128K'), dict(machine='128K', python=1), dict(fmt='z80')):
         cfg = dict(DEFAULT, verbose=1, **kw)
@@ -355,7 +365,7 @@ def _shard(shard, nshards, tier, seed):
         stats.transitions += legs
         stats.traces += n_total - 1
         names = '>'.join(L[i][0] for i in seq)
-        ctag = '{fmt}/{machine}/cmio{cmio}/py{python}/t0-{t0}/isr-{isr}'.format(**cfg) + ('/v' if cfg.get('verbose') else '') + ('/halt7fff' if cfg.get('prog') == 'halt7fff' else '')
+        ctag = '{fmt}/{machine}/cmio{cmio}/py{python}/t0-{t0}/isr-{isr}'.format(**cfg) + ('/v' if cfg.get('verbose') else '') + ('/audio' if cfg.get('audio') else '') + ('/halt7fff' if cfg.get('prog') == 'halt7fff' else '')
         stats.state((ctag, names))
         stats.nontriv((ctag, names))
         stats.counters['cfg_' + ctag] += 1
@@ -378,7 +388,7 @@ def run(tier, seed):
     meta = dict(
         rule='programs = prologue + every letter ({}) + epilogue; EVERY split point n1 = 1..N-1 (N = 100/112 instructions: prologue, letters, HALT '
              'wait, IM 2 interrupt routine, LDIR, prefix chain, port writes, loop); configurations = deviations <= {} from (szx, 48K, C, plain, '
-             'start T = frame-180) over fmt z80, 128K, --cmio, --python, start T in {{3 frames later, frame-60, 2^24-170}}, -v on both legs of the split run (the per-instruction logging path of each simulator; the uninterrupted run stays silent); plus, under --cmio in the display period on every (machine, simulator, format), a HALT wait at 0x7FFF (PC contended, PC+1 not) with every save point inside the wait; evaluations = split points; transitions = trace.main executions'.format(
+             'start T = frame-180) over fmt z80, 128K, --cmio, --python, start T in {{3 frames later, frame-60, 2^24-170}}, -v on both legs of the split run (the per-instruction logging path of each simulator; the uninterrupted run stays silent); --audio (the port-logging tracer) on all three runs; plus, under --cmio in the display period on every (machine, simulator, format), a HALT wait at 0x7FFF (PC contended, PC+1 not) with every save point inside the wait; evaluations = split points; transitions = trace.main executions'.format(
                  'single letters' if tier == 'quick' else 'single letters + all pairs of 9 core letters', 1 if tier == 'quick' else 2),
         exhaustive=True,
         bound='all split points of every generated program; configuration deviations d <= {}'.format(1 if tier == 'quick' else 2),
